@@ -98,7 +98,7 @@ class WbHarness(Harness):
     def _starts(self, bud, burst):
         if bud <= 0: return []
         op_ok = "RW"
-        if self.pattern: op_ok = self.pattern[self.K - bud]
+        if self.pattern and self.pattern[self.K - bud] != "*": op_ok = self.pattern[self.K - bud]
         out = []
         if burst is not None:
             we, a = burst
@@ -451,7 +451,8 @@ def configs(tier):
     cs = []
     def add(name, fac="build", max_states=3_000_000, **kw): cs.append((name, fac, kw, max_states))
     if tier == "quick":        # longest first (the pool hands jobs out in this order)
-        add("narrow-8on32-K3-aborts-nowait", wbw=8, pw=32, K=3, aborts=True, wait_states=False)
+        add("narrow-8on32-K3-aborts-nowait-W**", wbw=8, pw=32, K=3, aborts=True, wait_states=False, pattern="W**")
+        add("narrow-8on32-K3-aborts-nowait-R**", wbw=8, pw=32, K=3, aborts=True, wait_states=False, pattern="R**")
         add("narrow-16on32-K3-aborts", wbw=16, pw=32, K=3, aborts=True)
         add("wide-32on16-K3-aborts", wbw=32, pw=16, K=3, aborts=True)
         add("narrow-16on32-K4-aborts-RRWR", wbw=16, pw=32, K=4, aborts=True, pattern="RRWR")
@@ -481,6 +482,8 @@ def configs(tier):
         add("narrow-16on64-K4", wbw=16, pw=64, K=4, max_states=6_000_000)
         add("narrow-16on32-K4-base0x42", wbw=16, pw=32, K=4, base_address=0x42)
         add("narrow-8on32-K3-base0x41-idleones", wbw=8, pw=32, K=3, base_address=0x41, idle_ones=True)
+        add("narrow-8on32-K3-sel0", wbw=8, pw=32, K=3, sels=[1, 0])
+        add("eq-32on32-K4-sel0", wbw=32, pw=32, K=4, naddr=2, sels=[0xf, 0x6, 0])
         add("narrow-16on32-K4-aborts", wbw=16, pw=32, K=4, aborts=True, max_states=8_000_000)
         add("narrow-8on32-K3-aborts", wbw=8, pw=32, K=3, aborts=True)
         add("narrow-8on16-K4-aborts", wbw=8, pw=16, K=4, aborts=True, max_states=8_000_000)
